@@ -256,8 +256,8 @@ fn gen_chunks(rng: &mut Rng, max: usize) -> Vec<String> {
 /// after the call (NUL terminator of fixed buffers, the `flush` callback of caller-supplied writers): in the real
 /// expansion every `extern "C"` function flushes each of its `DiplomatWrite` parameters, whatever else it returns.
 fn macro_flush_probe(rep: &mut Report) {
-    let src = "#[diplomat::bridge]\nmod ffi {\n    use diplomat_runtime::DiplomatWrite;\n    use core::fmt::Write;\n    #[diplomat::opaque]\n    pub struct Em;\n    impl Em {\n        pub fn plain(&self, w: &mut DiplomatWrite) { let _ = w.write_str(\"a\"); }\n        pub fn fallible(&self, w: &mut DiplomatWrite) -> Result<(), ()> { let _ = w.write_str(\"b\"); Ok(()) }\n        pub fn optional(&self, w: &mut DiplomatWrite) -> Option<()> { let _ = w.write_str(\"c\"); Some(()) }\n        pub fn counted(&self, w: &mut DiplomatWrite) -> usize { let _ = w.write_str(\"d\"); 1 }\n        pub fn checked(&self, w: &mut DiplomatWrite) -> Result<bool, ()> { let _ = w.write_str(\"e\"); Ok(true) }\n        pub fn first(&self, w: &mut DiplomatWrite, times: u8) { let _ = w.write_str(\"f\"); let _ = times; }\n        pub fn tee(&self, v: &mut DiplomatWrite, w: &mut DiplomatWrite) { let _ = v.write_str(\"g\"); let _ = w.write_str(\"h\"); }\n        pub fn none(&self, x: u8) -> u8 { x }\n    }\n}\n".to_string();
-    let want: [(&str, usize); 8] = [("Em_plain", 1), ("Em_fallible", 1), ("Em_optional", 1), ("Em_counted", 1), ("Em_checked", 1), ("Em_first", 1), ("Em_tee", 2), ("Em_none", 0)];
+    let src = "#[diplomat::bridge]\nmod ffi {\n    use diplomat_runtime::DiplomatWrite;\n    use core::fmt::Write;\n    #[diplomat::opaque]\n    pub struct Em;\n    impl Em {\n        pub fn plain(&self, w: &mut DiplomatWrite) { let _ = w.write_str(\"a\"); }\n        pub fn fallible(&self, w: &mut DiplomatWrite) -> Result<(), ()> { let _ = w.write_str(\"b\"); Ok(()) }\n        pub fn optional(&self, w: &mut DiplomatWrite) -> Option<()> { let _ = w.write_str(\"c\"); Some(()) }\n        pub fn counted(&self, w: &mut DiplomatWrite) -> usize { let _ = w.write_str(\"d\"); 1 }\n        pub fn checked(&self, w: &mut DiplomatWrite) -> Result<bool, ()> { let _ = w.write_str(\"e\"); Ok(true) }\n        pub fn first(&self, w: &mut DiplomatWrite, times: u8) { let _ = w.write_str(\"f\"); let _ = times; }\n        pub fn tee(&self, v: &mut DiplomatWrite, w: &mut DiplomatWrite) { let _ = v.write_str(\"g\"); let _ = w.write_str(\"h\"); }\n        pub fn none(&self, x: u8) -> u8 { x }\n        pub fn dres(&self, w: &mut DiplomatWrite) -> diplomat_runtime::DiplomatResult<(), Option<u8>> { let _ = w.write_str(\"i\"); Ok(()).into() }\n        pub fn dres_plain(&self, w: &mut DiplomatWrite) -> diplomat_runtime::DiplomatResult<(), u8> { let _ = w.write_str(\"j\"); Ok(()).into() }\n        pub fn res_opt(&self, w: &mut DiplomatWrite) -> Result<(), Option<u8>> { let _ = w.write_str(\"k\"); Ok(()) }\n    }\n}\n".to_string();
+    let want: [(&str, usize); 11] = [("Em_plain", 1), ("Em_fallible", 1), ("Em_optional", 1), ("Em_counted", 1), ("Em_checked", 1), ("Em_first", 1), ("Em_tee", 2), ("Em_none", 0), ("Em_dres", 1), ("Em_dres_plain", 1), ("Em_res_opt", 1)];
     let case = "(c12 probe macro-flushes-every-write)";
     let ex = crate::expand::expand_each(&[src.clone()]);
     rep.oracle_runs += 1;
